@@ -65,6 +65,7 @@ def real_sempler():
             import sempler.utils
             import sempler.generators
             import sempler.noise
+            import sempler.functions
         _REAL[0] = sempler
     return _REAL[0]
 
